@@ -100,6 +100,20 @@ class Ctx:
         s.solver.pop()
         return r == z3.unsat
 
+    def forced_value(s, e):
+        """the concrete integer the path condition forces e to, or None"""
+        e = simp(e)
+        if is_conc(e):
+            return e
+        if s.solver.check() != z3.sat:
+            return None
+        v = s.solver.model().eval(I(e), model_completion=True)
+        try:
+            k = v.as_long()
+        except Exception:
+            return None
+        return k if s.entails(I(e) == k) else None
+
     def possible(s, cond):
         cond = simp(B(cond))
         if cond is True:
@@ -1078,6 +1092,9 @@ def mul_lin(i, ibound, size):
     if is_conc(size) or is_conc(i):
         return simp(I(i) * I(size))
     ibound = simp(ibound)
+    if not is_conc(ibound):
+        k = ctx().forced_value(ibound)
+        ibound = k if k is not None else ibound
     if is_conc(ibound) and ibound <= 64:
         return z3.Sum([z3.If(I(i) == t, t * I(size), 0) for t in range(ibound)])
     raise Unsupported('non-linear index product')
@@ -1091,6 +1108,9 @@ def divmod_lin(f, size, qbound):
             return simp(f), 0
         return simp(I(f) / size), simp(I(f) % size)
     qbound = simp(qbound)
+    if not is_conc(qbound):
+        k = ctx().forced_value(qbound)
+        qbound = k if k is not None else qbound
     if is_conc(qbound) and qbound <= 64:
         if qbound == 1:
             return 0, simp(f)
@@ -1192,6 +1212,10 @@ def mulsym(a, b):
     a, b = simp(a), simp(b)
     if is_conc(a) or is_conc(b):
         return simp(I(a) * I(b))
+    for p, q in ((a, b), (b, a)):          # an extent the path condition pins to a constant (e.g. batch == 1)
+        k = ctx().forced_value(p)
+        if k is not None:
+            return simp(k * I(q))
     raise Unsupported('product of two symbolic extents in reshape')
 
 
